@@ -38,3 +38,113 @@ def install(w):
             props=["C15", "C07", "C08"],
         )
     )
+
+
+def install_methods(w):
+    """SET / UNSET bookkeeping: the variable store as a map (C15: $name stands for the value of the latest SET until UNSET)"""
+    import z3
+    from sqlglot import exp
+
+    import fakesnow.variables as fv
+    from pyvc.sorts import V, mkb
+    from pyvc.state import Val
+    from pyvc.world import SpecFun
+
+    Vr = fv.Variables
+    E = exp.Expression
+    M = "fakesnow.variables.Variables."
+
+    def _dict_same_except(ex, st, args):
+        """dict_same_except(d, k): every key other than k maps as it did at entry (presence and value)"""
+        old = ex.spec.old if ex.spec is not None else st
+        did = V.rid(args[0].t)
+        k = args[1].t
+        cm, om, ch, oh = st.arr("$dmap")[did], old.arr("$dmap")[did], st.arr("$dhas")[did], old.arr("$dhas")[did]
+        # quantifier-free: the maps agree everywhere once the entry for k is overwritten with its new value
+        return Val(mkb(z3.And(cm == z3.Store(om, k, cm[k]), ch == z3.Store(oh, k, ch[k]))), bool)
+
+    def _dict_unchanged(ex, st, args):
+        old = ex.spec.old if ex.spec is not None else st
+        did = V.rid(args[0].t)
+        return Val(mkb(z3.And(st.arr("$dhas")[did] == old.arr("$dhas")[did], st.arr("$dmap")[did] == old.arr("$dmap")[did])), bool)
+
+    w.specfuns["dict_same_except"] = SpecFun("dict_same_except", _dict_same_except)
+    w.specfuns["dict_unchanged"] = SpecFun("dict_unchanged", _dict_unchanged)
+
+    DFIELDS = ["self._variables.$dmap", "self._variables.$dhas", "self._variables.$klen", "self._variables.$kel"]
+    w.add_contract(
+        Contract(
+            M + "_set",
+            params={"self": Vr, "name": str, "value": str},
+            requires=[],
+            result=NoneType,
+            modifies=DFIELDS,
+            ensures={
+                "C15.set.binds": "dict_has(self._variables, name) and dict_at(self._variables, name) == value",
+                "C15.set.others_unchanged": "dict_same_except(self._variables, name)",
+            },
+            props=["C15"],
+        )
+    )
+    w.add_contract(
+        Contract(
+            M + "_unset",
+            params={"self": Vr, "name": str},
+            requires=[],
+            result=NoneType,
+            modifies=DFIELDS,
+            # (UNSET of a name that is not defined surfaces as KeyError; the property says nothing about it)
+            raises={KeyError: {"when": "not old(dict_has(self._variables, name))", "ensures": {}, "modifies": []}},
+            ensures={
+                "C15.unset.removes": "not dict_has(self._variables, name)",
+                "C15.unset.others_unchanged": "dict_same_except(self._variables, name)",
+            },
+            props=["C15"],
+        )
+    )
+    UNSET = "(isinstance(expr, exp.Alias) and isinstance(arg(arg(expr, 'this'), 'this'), exp.Expression) and arg(arg(arg(expr, 'this'), 'this'), 'this') == 'UNSET')"
+    w.add_contract(
+        Contract(
+            M + "_is_unset_expression",
+            params={"cls": None, "expr": E},
+            # field shape: an Alias has a node as `this`
+            requires=["implies(isinstance(expr, exp.Alias), isinstance(arg(expr, 'this'), exp.Expression))"],
+            result=bool,
+            modifies=[],
+            pure=True,
+            ensures={"C15.is_unset.def": f"result == {UNSET}"},
+            props=["C15"],
+        )
+    )
+    SETX = "(isinstance(expr, exp.Set) and not arg(expr, 'unset'))"
+    EQ = "arg(seq_at(arg(expr, 'expressions'), 0), 'this')"
+    w.add_contract(
+        Contract(
+            M + "update_variables",
+            params={"self": Vr, "expr": E},
+            requires=[
+                "implies(isinstance(expr, exp.Alias), isinstance(arg(expr, 'this'), exp.Expression))",
+                # field shapes of a parsed SET name = value (A-SQLGLOT 1): expressions = [SetItem(this=EQ(this=name, expression=value))]
+                f"implies({SETX} and bool(arg(expr, 'expressions')), is_list(arg(expr, 'expressions')) and isinstance(seq_at(arg(expr, 'expressions'), 0), exp.Expression) "
+                f"and isinstance({EQ}, exp.Expression) and isinstance(arg({EQ}, 'this'), exp.Expression) and isinstance(arg({EQ}, 'expression'), exp.Expression))",
+                f"implies({UNSET} and bool(arg(expr, 'alias')), isinstance(arg(expr, 'alias'), exp.Expression) and isinstance(arg(arg(expr, 'alias'), 'this'), str))",
+            ],
+            result=NoneType,
+            modifies=DFIELDS,
+            locals={"set_expressions": Opt(ListT(E)), "eq": E},
+            raises={
+                AssertionError: {"when": None, "ensures": {}, "modifies": []},
+                NotImplementedError: {"when": "isinstance(expr, exp.Set) and old(bool(arg(expr, 'unset')))", "ensures": {}, "modifies": []},
+                KeyError: {"when": f"not isinstance(expr, exp.Set) and {UNSET} and bool(old(arg(expr, 'alias'))) and not old(dict_has(self._variables, arg(arg(expr, 'alias'), 'this')))", "ensures": {}, "modifies": []},
+            },
+            ensures={
+                # SET name = value: $NAME stands for the text of value from now on; nothing else changes
+                "C15.update.set": f"implies(old({SETX}), dict_has(self._variables, old(sql_of(arg({EQ}, 'this'), ''))) and dict_at(self._variables, old(sql_of(arg({EQ}, 'this'), ''))) == old(sql_of(arg({EQ}, 'expression'), '')) "
+                f"and dict_same_except(self._variables, old(sql_of(arg({EQ}, 'this'), ''))))",
+                "C15.update.unset": f"implies(not isinstance(expr, exp.Set) and old({UNSET}), bool(old(arg(expr, 'alias'))) and not dict_has(self._variables, old(arg(arg(expr, 'alias'), 'this'))) and dict_same_except(self._variables, old(arg(arg(expr, 'alias'), 'this'))))",
+                # every other statement leaves the variables alone
+                "C15.update.else_unchanged": f"implies(not isinstance(expr, exp.Set) and not old({UNSET}), dict_unchanged(self._variables))",
+            },
+            props=["C15"],
+        )
+    )
